@@ -229,8 +229,7 @@ structure St where
   output : Option Bytes := none
   input : Option Bytes := none
   doubleDash : Bool := false
-  depTarget : Option Bytes := none
-  depFlag : Bytes := sb "-MT"
+  depTargets : List (Bytes × Bytes) := []          -- every (-MT | -MQ, target) given, in order (fix F-C01-p: all of them reach the dependency file)
   common : List Bytes := []
   arch : List Bytes := []
   unhashed : List Bytes := []
@@ -301,7 +300,7 @@ def classifyCore (multiArchOk : Bool) (st : St) (a : Argument) : Except Bytes St
   | some .needDepTarget =>
     .ok { st with tooHardPP := some ((a.flagStr).getD []), needDepTarget := true,
                   depPath := if st.depPath == 0 then 1 else st.depPath, dep := st.dep ++ strs }
-  | some .depTarget => .ok { st with depFlag := (a.flagStr).getD [], depTarget := some (valueOf a) }
+  | some .depTarget => .ok { st with depTargets := st.depTargets ++ [((a.flagStr).getD [], valueOf a)] }
   | some .depArgumentPath => .ok { st with depPath := 2, dep := st.dep ++ strs }
   | some .serializeDiagnostics => .ok { st with serDiag := some (valueOf a) }
   | some .language =>
@@ -344,7 +343,7 @@ def finishWith (st : St) (input : Bytes) (lang : Lang) : Parsed :=
       ++ (if st.splitDwarf then [(sb "dwo", withExtension output (sb "dwo"), true)] else [])
       ++ (if st.gcno then [(sb "gcno", withExtension output (sb "gcno"), false)] else [])
       ++ [(sb "obj", output, false)],
-    dep := st.dep ++ (if st.needDepTarget then [st.depFlag, st.depTarget.getD (makeQuote output)] else [])
+    dep := st.dep ++ (if st.needDepTarget then (if st.depTargets.isEmpty then [sb "-MT", makeQuote output] else st.depTargets.flatMap fun (f, t) => [f, t]) else [])
                   ++ (if st.depPath == 1 then [sb "-MF", withExtension output (sb "d")] else []),
     pre := st.pre,
     common := st.common ++ (if st.splitDwarf then [sb "-D_gsplit_dwarf_path=" ++ withExtension output (sb "dwo")] else []),
